@@ -1042,6 +1042,48 @@ func (s *sim) recoverCrashImages(first server.VerifSnap) {
 			}
 		}
 	}
+	// If a persistence function can put a record on disk in more than one write (static scan), a
+	// process death between the writes leaves a record cut short: synthesize such images from the last
+	// real image (the file shortened by a few byte counts) and require what every crash image must
+	// satisfy first of all -- the server starts.
+	if mw, err := multiWriteFuncs(repo); err == nil && len(mw) > 0 && len(imgs) > 0 {
+		s.res.Count("crash.synthesized-cut-record")
+		fileOf := map[string]string{"saveAllDeviceStats": "allDeviceStats.dat", "saveEquipment": "equipment-authorizations.dat", "saveEquipmentReport": "equipment-reports.dat"}
+		for _, m := range mw {
+			fn := strings.SplitN(m, ":", 2)[0]
+			f, ok := fileOf[fn]
+			if !ok {
+				continue
+			}
+			// the last image in which that file is not empty
+			var base *srv.CrashImage
+			for i := len(imgs) - 1; i >= 0; i-- {
+				if st, err := os.Stat(filepath.Join(imgs[i].Dir, f)); err == nil && st.Size() > 0 {
+					base = &imgs[i]
+					break
+				}
+			}
+			if base == nil {
+				continue
+			}
+			full, _ := os.ReadFile(filepath.Join(base.Dir, f))
+			for k, cut := range []int{1, 64, 68, len(full) - 4} {
+				if cut <= 0 || cut >= len(full) {
+					continue
+				}
+				d := fmt.Sprintf("%s-cut-%s-%d", base.Dir, fn, k)
+				if srv.CopyDir(base.Dir, d) != nil {
+					continue
+				}
+				os.WriteFile(filepath.Join(d, f), full[:len(full)-cut], 0644)
+				started, _, err, pan := w.RecoverImage(srv.CrashImage{Dir: d, Now: base.Now, OpSeq: base.OpSeq})
+				if pan != "" || !started {
+					s.fail(fmt.Sprintf("%s; a process death between its writes leaves %s %d bytes short of a whole record, and start-up on that directory fails: %v %s", m, f, cut, err, pan), "c05-cut-record:"+f)
+					break
+				}
+			}
+		}
+	}
 	for _, ci := range imgs {
 		started, got, err, pan := w.RecoverImage(ci)
 		s.res.Count("crash.image")
